@@ -106,9 +106,17 @@ def random_scenarios(n):
         times = sorted(r.sample(range(1, 60), ntp - 1))
         tps = [{"t": 0, "bpm": r.choice([600, 750, 900, 1200, 1500, 1800, 2400])}]
         tps += [{"t": t, "bpm": r.choice([600, 750, 900, 1200, 1500, 1800, 2400])} for t in times]
+        if i % 5 == 1 and ntp >= 2:
+            tps[-1]["bpm"] = r.choice([100, 50, 100])             # a crawl: far from the reference tempo
+        if i % 4 == 1:
+            for t in tps:
+                t["t"] += 2                                   # the chart starts before its first tempo point
         last = max([t["t"] for t in tps]) + r.randint(0, 10)
         svs = sorted(({"t": r.randint(0, last), "m": r.choice([2500, 5000, 7500, 10000, 12500, 20000, 40000])}
                       for _ in range(r.randint(0, 8))), key=lambda x: x["t"])
+        if i % 4 == 1:
+            # a lead-in scroll velocity, none on the first tempo point itself
+            svs = [{"t": 1, "m": 20000}] + [x for x in svs if x["t"] > 2]
         out.append({"id": f"r{i}", "tps": tps, "svs": svs, "last": last, "unit": 125.0,
                     "overrides": [0, r.choice([100, 175, 240])]})
     return out
